@@ -18,7 +18,7 @@ ASSUMPTIONS = [
     "stray files that do not have the <2>/<rest> layout are outside the property",
 ]
 MONITORS = "independent before/after os.walk listing of the store compared with a set-difference model; return value; byte snapshot of survivors"
-REQUIRED_COUNTERS = ["path_spelling/trailing-slash", "path_spelling/dotdot", "nfc_nfd_sibling_listings", "used_as/generator", "used_as/iterator", "gc_calls", "expanding_calls_with_used_dir", "dry_calls", "readonly_calls", "real_removals", "foreign_algo_ids_in_used"]
+REQUIRED_COUNTERS = ["stale_listing_loaded_before_gc", "path_spelling/trailing-slash", "path_spelling/dotdot", "nfc_nfd_sibling_listings", "used_as/generator", "used_as/iterator", "gc_calls", "expanding_calls_with_used_dir", "dry_calls", "readonly_calls", "real_removals", "foreign_algo_ids_in_used"]
 
 
 def _put(root, oid, data, mode):
@@ -128,10 +128,31 @@ def run_shard(ctx):
                       "dotdot": os.path.join(pdir, "x", "..", pbase)}[spelling]
             if spelling == "dotdot":
                 os.makedirs(os.path.join(pdir, "x"), exist_ok=True)
-            odb = env.odb_of_class(cls, opened, hash_name=algo)
-            odb.read_only = read_only
+            odb = env.odb_of_class(cls, opened, hash_name=algo, **({"read_only": True} if read_only else {}))
             cache_odb = env.odb_of_class("local", croot, hash_name=algo) if separate_cache else None
 
+            # history: under a used directory's id there first sat a well-formed but wrong listing (an interrupted sync), which
+            # something loaded; then the genuine object replaced it - gc must expand what is in the store now
+            if used_dirs and not shallow and rng.random() < 0.2:
+                from dvc_data.hashfile.tree import Tree
+
+                codb = cache_odb or odb
+                for o in sorted(used_dirs)[:2]:
+                    pth = os.path.join(croot, o[:2], o[2:])
+                    if os.path.exists(pth) and o != corrupt_dir:
+                        with open(pth, "rb") as f:
+                            genuine = f.read()
+                        os.chmod(pth, 0o644)
+                        with open(pth, "wb") as f:
+                            f.write(b"[]" if rng.random() < 0.5 else canonical_dir_bytes({"only": H("md5", b"x")}))
+                        try:
+                            Tree.load(codb, env.HI(algo, o))
+                        except Exception:  # noqa: BLE001
+                            pass
+                        with open(pth, "wb") as f:
+                            f.write(genuine)
+                        os.chmod(pth, 0o444)
+                        res.count("stale_listing_loaded_before_gc")
             before = store_snapshot(root)
             cache_before = store_snapshot(croot) if separate_cache else None
             present = set(before)
